@@ -13,7 +13,7 @@ class MirError(Exception):
 
 
 class Func:
-    __slots__ = ("name", "params", "ret", "locals", "raw_blocks", "blocks", "is_const", "nparams")
+    __slots__ = ("name", "params", "ret", "locals", "raw_blocks", "blocks", "is_const", "nparams", "_uses", "_ncaps")
 
     def __init__(self, name, params, ret):
         self.name, self.params, self.ret = name, params, ret
@@ -22,6 +22,8 @@ class Func:
         self.blocks = None      # compiled lazily: bb -> (stmts, term)
         self.is_const = False
         self.nparams = len(params)
+        self._uses = None
+        self._ncaps = None
 
 
 # ------------------------------------------------------------------------------ text helpers
@@ -535,6 +537,21 @@ def compile_stmt(st):
     return ("assign", parse_place(lhs), compile_rvalue(rhs))
 
 
+def _count_local_uses(f, nm):
+    cache = getattr(f, "_uses", None)
+    if cache is None:
+        cache = {}
+        for raw in f.raw_blocks.values():
+            for line in raw:
+                for m in re.finditer(r"_\d+", line):
+                    cache[m.group(0)] = cache.get(m.group(0), 0) + 1
+        try:
+            f._uses = cache
+        except AttributeError:
+            pass
+    return cache.get(nm, 0)
+
+
 def compile_func(f):
     if f.blocks is not None:
         return
@@ -546,6 +563,17 @@ def compile_func(f):
         try:
             stmts = [c for c in (compile_stmt(s) for s in raw[:-1]) if c is not None]
             term = compile_term(raw[-1])
+            # rustc prints one capture per captured *variable*; with precise captures a closure aggregate may have more
+            # operands than printed.  The unprinted ones are the temporaries assigned just before it and used nowhere else.
+            for k, st in enumerate(stmts):
+                if st[0] == "assign" and st[2][0] == "closure":
+                    cands = []
+                    for prev in stmts[:k]:
+                        if prev[0] == "assign" and prev[1][0] == "local":
+                            nm = prev[1][1]
+                            if _count_local_uses(f, nm) == 1:
+                                cands.append(nm)
+                    stmts[k] = ("assign", st[1], ("closure", st[2][1], st[2][2], cands))
         except MirError as e:
             # cleanup / never-executed blocks may contain constructs we do not support: fail lazily
             stmts, term = [], ("unsupported", "%s in %s %s" % (e, f.name, bb))
